@@ -56,29 +56,31 @@ type SeqCase struct {
 
 // SeqStats describes what a run exercised; used for the non-triviality rules.
 type SeqStats struct {
-	SharedPrefixPair   bool // two put keys in one bucket sharing >=1 byte after the bucket prefix
-	Supersede          int  // overwrites with a new value + removals of present keys
-	Rejected           int  // immutable puts rejected
-	ReadAfterFlush     bool
-	Flushes            int
-	Reopens            [3]int
-	ReopenAfterWork    bool // reopen preceded by rollover / removal of flushed key / GC change / empty list
-	GCChanged          int  // GC cycles that changed at least one byte on disk
-	GCInterrupted      int
-	GCWithUnflushed    int
-	IndexFiles         int
-	PrimaryFiles       int
-	EmptyValues        int
-	Steps              int
-	ReadAfterGC        bool
-	GCKinds            map[string]bool
-	GCErrors           []string // error returns of GC cycles (not violations by themselves)
-	SupersededFlushed  bool     // a key whose entry had been flushed was overwritten or removed
-	Translations       int
-	TranslatedNT       bool // a translation of >=6 keys, >=2 sharing a bucket afterwards, from >=2 index files
-	BitPairs           []string
-	Mismatches         int
-	MismatchesWithBits int
+	SharedPrefixPair     bool // two put keys in one bucket sharing >=1 byte after the bucket prefix
+	Supersede            int  // overwrites with a new value + removals of present keys
+	Rejected             int  // immutable puts rejected
+	ReadAfterFlush       bool
+	Flushes              int
+	Reopens              [3]int
+	ReopenAfterWork      bool // reopen preceded by rollover / removal of flushed key / GC change / empty list
+	GCChanged            int  // GC cycles that changed at least one byte on disk
+	GCInterrupted        int
+	GCWithUnflushed      int
+	IndexFiles           int
+	PrimaryFiles         int
+	EmptyValues          int
+	Steps                int
+	ReadAfterGC          bool
+	GCKinds              map[string]bool
+	GCErrors             []string // error returns of GC cycles (not violations by themselves)
+	SupersededFlushed    bool     // a key whose entry had been flushed was overwritten or removed
+	Translations         int
+	TranslatedNT         bool // a translation of >=6 keys, >=2 sharing a bucket afterwards, from >=2 index files
+	BitPairs             []string
+	Mismatches           int
+	MismatchesWithBits   int
+	FaultyRebitsRefused  int
+	FaultyRebitsAccepted int
 }
 
 // seqOpts selects optional behaviour of the runner.
@@ -807,6 +809,26 @@ func (r *seqRunner) doReBits(i int, op Op) *Violation {
 	}
 	nIdx := len(numberedFiles(r.dir, idxBase))
 	r.c.Cfg.Bits = newBits
+	if op.B == 1 && newBits != oldBits && r.c.Cfg.Primary == store.MultihashPrimary {
+		// A read fault during the re-bucketing: the oldest primary file is
+		// replaced by a directory of its name for one attempt (opening works,
+		// reading fails). The attempt may be refused; if it is accepted, or
+		// after the file is back, the contents must be complete.
+		if prim := numberedFiles(r.dir, dataBase); len(prim) >= 2 {
+			name := filepath.Join(r.dir, fmt.Sprintf("%s.%d", dataBase, prim[0]))
+			if os.Rename(name, name+".away") == nil && os.Mkdir(name, 0o755) == nil {
+				s, err := openStore(r.dir, r.c.Cfg)
+				if err == nil {
+					r.stats.FaultyRebitsAccepted++
+					s.Close()
+				} else {
+					r.stats.FaultyRebitsRefused++
+				}
+				os.Remove(name)
+				os.Rename(name+".away", name)
+			}
+		}
+	}
 	s, err := openStore(r.dir, r.c.Cfg)
 	if err != nil {
 		return viol("rebits-open-error|rebits|"+errClass(err), i, "reopen with %d instead of %d index bits failed: %v", newBits, oldBits, err)
